@@ -52,7 +52,7 @@ def run(ctx):
     want_by_id = {v["id"]: v.get("want", {}) for v in verdicts}
     # dead-driver / coverage checks (machinery, never a violation)
     ok_shapes = {o["cs"]["focus"] for o in obs if o["cs"]["mode"] == "E" and want_by_id[o["id"]].get("k") == "ok"}
-    need = {"int", "str", "bool", "strs", "empty", "elem", "detached", "mixed", "context", "ucum"}
+    need = {"int", "str", "bool", "strs", "empty", "one", "elem", "detached", "mixed", "context", "ucum"}
     if not need <= ok_shapes:
         raise D.Inconclusive("value shapes never evaluated successfully: %s" % sorted(need - ok_shapes))
     invoked = sum(1 for o in obs if o["calls"])
